@@ -152,8 +152,12 @@ def gen_cases(ctx):
             N = n + r.choice([0, 1, 7])
             noise = r.choice([0.05, 0.2])
             ref, est = gen_pair(r, N, "generic", noise, r.choice([1.0, logu(r, 0.1, 10)]))
-            yield {"kind": "sized", "op": "align", "mode": mode, "ref": ref, "est": est, "storage": r.choice(["se3", "quat"]),
+            yield {"kind": "sized", "op": "align", "mode": mode, "ref": ref, "est": est, "storage": r.choice(STORAGES if n < 500 else ["se3", "quat", "se3+pos", "quat+poses"]),
                    "noise": noise, "ratio": 1.0, "n": n if N > n or r.random() < 0.5 else -1}
+    for N in (1, 2):
+        for storage in ("se3", "quat"):
+            ref, est = gen_pair(r, N, "generic", 0.1, 1.0)
+            yield {"kind": "tiny", "op": "origin", "ref": ref, "est": est, "storage": storage, "noise": 0.1, "ratio": 1.0, "n": -1}
     ops = ["align", "align", "align", "origin", "ape", "rpe"]
     for k in range(budget):
         op = ops[k % len(ops)]
@@ -166,8 +170,10 @@ def gen_cases(ctx):
         if drift:
             N = max(N, 6)
         ref, est = gen_pair(r, N, shape, noise, ratio)
-        storage = r.choice(["se3", "quat", "se3+cache"])
+        storage = STORAGES[k % len(STORAGES)] if r.random() < 0.7 else r.choice(STORAGES)
         nsel = r.choice([-1, -1, r.randint(3, N), r.randint(3, N), N, N + r.randint(1, 5)])
+        if N >= 6 and r.random() < 0.08:
+            nsel = -r.randint(2, N - 3)          # Python slicing: all but the last |n| poses
         if drift:
             # the first n0 pairs fit (up to the noise level), afterwards the estimate drifts away strongly:
             # the optimum over the first n0 pairs differs from the optimum over all pairs
@@ -179,7 +185,16 @@ def gen_cases(ctx):
                 for j, col in enumerate((3, 7, 11)):
                     est[i][col] += f * ext_e * dvec[j]
             shape = shape + "+drift"
-        case = {"kind": shape, "op": op, "ref": ref, "est": est, "storage": storage, "noise": noise, "ratio": ratio, "n": nsel}
+        case = {"kind": shape, "op": op, "ref": ref, "est": est, "storage": storage, "ref_storage": r.choice(STORAGES),
+                "noise": noise, "ratio": ratio, "n": nsel}
+        if N >= 4 and r.random() < 0.2:
+            kk, jj = sorted(r.sample(range(N), 2))
+            est[jj] = list(est[kk])                # equal values ...
+            case["alias"] = [kk, jj]               # ... and (for matrix storage) one ndarray object in both slots
+        if r.random() < 0.25:
+            # object reuse: the same estimate object was aligned before, to a different reference
+            ref1, _ = gen_pair(r, N, "generic", 0.0, 1.0)
+            case["first"] = {"ref": ref1, "mode": r.choice(["se3", "sim3", "scale", "origin"]), "n": r.choice([-1, -1, min(N, 5)])}
         if op == "align":
             case["mode"] = r.choice(["se3", "sim3", "scale"])
         elif op in ("ape", "rpe"):
@@ -188,17 +203,41 @@ def gen_cases(ctx):
 
 
 # ----------------------------------------------------------------------------- implementation
-def build(rows12, storage):
+STORAGES = ["se3", "se3+pos", "se3+quat", "se3+cache", "se3+check", "quat", "quat+poses", "quat+check", "quat+views"]
+
+
+def build(rows12, storage, alias=None):
+    """L4: construction route x what has been read (materialised) before the call under test.
+    se3 = pose matrices only; +pos / +quat / +cache (= both) / +check = those views read once before the call;
+    quat = positions + quaternions; +poses = poses_se3 materialised; +views = built from strided read-only views.
+    L3: `alias` = (k, j): the pose list holds the *same ndarray object* at both indices (equal values)."""
     from evo.core.trajectory import PosePath3D
     poses = [mat(p) for p in rows12]
-    if storage == "quat":
+    if alias and storage.startswith("se3"):
+        poses[alias[1]] = poses[alias[0]]
+    if storage.startswith("quat"):
         xyz = np.array([p[:3, 3] for p in poses])
         quat = np.array([m2q(p[:3, :3]) for p in poses])
-        return PosePath3D(positions_xyz=xyz, orientations_quat_wxyz=quat)
+        if storage == "quat+views":
+            bx, bq = np.full((len(poses), 7), 9.0), np.full((2 * len(poses), 4), 0.5)
+            bx[:, 2:5] = xyz
+            bq[::2] = quat
+            xyz, quat = bx[:, 2:5], bq[::2]
+            xyz.setflags(write=False)
+            quat.setflags(write=False)
+        t = PosePath3D(positions_xyz=xyz, orientations_quat_wxyz=quat)
+        if storage == "quat+poses":
+            _ = t.poses_se3
+        elif storage == "quat+check":
+            _ = t.check()
+        return t
     t = PosePath3D(poses_se3=poses)
-    if storage == "se3+cache":
+    if storage in ("se3+pos", "se3+cache"):
         _ = t.positions_xyz
+    if storage in ("se3+quat", "se3+cache"):
         _ = t.orientations_quat_wxyz
+    if storage == "se3+check":
+        _ = t.check()
     return t
 
 
@@ -214,8 +253,23 @@ def state(t):
 def run_impl(case):
     from evo.core import geometry, trajectory, metrics
     out = {}
-    ref, est = build(case["ref"], case["storage"]), build(case["est"], case["storage"])
-    view = copy.deepcopy(est)
+    ref = build(case["ref"], case.get("ref_storage", case["storage"]))
+    est = build(case["est"], case["storage"], case.get("alias"))
+    view = build(case["est"], case["storage"], case.get("alias"))     # identically built twin: expected values come from it
+    if "first" in case:
+        # L1/L9 object reuse: the estimate has already been aligned once (to another reference / to the origin)
+        f = case["first"]
+        try:
+            for obj in (est, view):
+                other = build(f["ref"], "se3")
+                with np.errstate(all="ignore"):
+                    if f["mode"] == "origin":
+                        obj.align_origin(other)
+                    else:
+                        obj.align(other, correct_scale=(f["mode"] == "sim3"), correct_only_scale=(f["mode"] == "scale"), n=f["n"])
+        except Exception as e:      # the preparatory alignment is not the call under test
+            return {"first_failed": f"{type(e).__name__}: {e}"[:100], "ref_unchanged": True}
+    view = copy.deepcopy(view)
     out["pre"] = state(view)                      # evo's view of the unaligned estimate
     out["pre_ref"] = state(copy.deepcopy(ref))
     ref_before = snap(copy.deepcopy(ref))
@@ -253,6 +307,12 @@ def run_impl(case):
                 est = res.trajectories["estimate"]
                 out["ref_stored_same"] = snap(res.trajectories["reference"]) == ref_before
         out["post"] = state(est)
+        vals = [v for p in out["post"]["poses"] for v in p] + [v for q in out["post"]["quat"] for v in q]
+        if "rts" in out:
+            vals += [v for row in out["rts"]["R"] for v in row] + out["rts"]["t"] + [out["rts"]["s"]]
+        vals += (out.get("T") or []) + (out.get("M") or [])
+        if not all(math.isfinite(v) for v in vals):
+            out["err"] = "CRASH non-finite value in the aligned trajectory / returned transformation"
     except geometry.GeometryException as e:
         out["err"] = "E_GEOMETRY"
     except trajectory.TrajectoryException as e:
@@ -288,7 +348,7 @@ def used_count(n, N):
 def model_lines(case, impl):
     N = len(case["est"])
     lines = [f"C04 firstn {case['n']} {N}"]
-    if "err" in impl:
+    if "err" in impl or "first_failed" in impl:
         return lines
     pre = impl["pre"]["poses"]
     op = case["op"]
@@ -370,8 +430,16 @@ def judge(ctx, case, impl, outs, extra):
     op = case["op"]
     ctx.count("dist", "op:" + op + (":" + case["mode"] if op == "align" else ""))
     ctx.count("dist", "storage:" + case["storage"])
+    if "first" in case:
+        ctx.count("dist", "reused-object:first=" + case["first"]["mode"])
+    if case.get("alias"):
+        ctx.count("dist", "aliased-pose-objects")
     ctx.count("dist", "n=-1" if case["n"] == -1 else "n<N" if case["n"] < N else "n>=N")
     ctx.count("dist", "kind:" + case["kind"])
+    if "first_failed" in impl:
+        ctx.skipped += 1
+        ctx.record(case, False)
+        return
     if not impl["ref_unchanged"]:
         ctx.fail(case, "reference-unchanged", "the reference trajectory was modified by the alignment")
     k_model = int(outs[0])
@@ -406,7 +474,7 @@ def judge(ctx, case, impl, outs, extra):
         ctx.record(case, False)
         return
     # sanity of the views: evo's view of the inputs is the case's matrices (quaternion storage: to 1e-12)
-    if float(np.abs(P0 - np.array([mat(p) for p in case["est"]])).max()) > 1e-9 * (1 + float(np.abs(x_all).max())):
+    if "first" not in case and float(np.abs(P0 - np.array([mat(p) for p in case["est"]])).max()) > 1e-9 * (1 + float(np.abs(x_all).max())):
         ctx.fail(case, "input-view", "evo's poses of the freshly built estimate differ from the data it was built from")
     # views of the result consistent with each other
     if not post["bottom_ok"]:
@@ -609,6 +677,9 @@ def shrink(case):
                     c = dict(case)
                     c["est"] = case["est"][:start] + case["est"][start + cut:]
                     c["ref"] = case["ref"][:start] + case["ref"][start + cut:]
+                    c.pop("alias", None)
+                    if "first" in case:
+                        c["first"] = dict(case["first"], ref=case["first"]["ref"][:start] + case["first"]["ref"][start + cut:])
                     if c["n"] != -1:
                         c["n"] = max(3, min(c["n"], len(c["est"])))
                     yield c
@@ -629,14 +700,14 @@ def evaluate(ctx, cases):
     lines, spans = [], []
     for c, i, k in zip(cases, impls, first):
         ls = model_lines(c, i)
-        if "err" not in i and "rts" in i:
+        if "err" not in i and "first_failed" not in i and "rts" in i:
             ls.append(cert_line(c, i, int(k)))
         spans.append((len(lines), len(lines) + len(ls)))
         lines += ls
     outs = core.run_driver(lines)
     for c, i, (a, b) in zip(cases, impls, spans):
         o = outs[a:b]
-        extra = o[-1] if ("err" not in i and "rts" in i) else None
+        extra = o[-1] if ("err" not in i and "first_failed" not in i and "rts" in i) else None
         judge(ctx, c, i, o, extra)
 
 
